@@ -4,4 +4,5 @@ package checks
 import (
 	_ "verif/harness/internal/c07"
 	_ "verif/harness/internal/c13"
+	_ "verif/harness/internal/c19"
 )
